@@ -60,11 +60,13 @@ def cases(rng, tier):
         absent = [a for a in htgen.absent_keys(rng, keys, dt, mod)]
         # the ends of the key dtype (and 0) as NON-keys: values an implementation may use as a marker
         absent += [a for a in (int(np.iinfo(dt).min), int(np.iinfo(dt).max), 0, -1) if a not in keys and np.iinfo(dt).min <= a <= np.iinfo(dt).max and a not in absent]
-        init = rng.choice(["default", "default", 0, 5, 1, -1, 0.5, "array", "array", "farray"])      # (1, -1, 0: values a truth test or a sign confuses)
+        init = rng.choice(["default", "default", 0, 5, 1, -1, 0.5, "array", "array", "farray", "cfarray"])      # (1, -1, 0: values a truth test or a sign confuses)
         if init == "array":
             init = [rng.randint(0, 9) for _ in keys]
         elif init == "farray":       # per-key pseudo-counts that are not integers
             init = [rng.choice([0.5, 1.5, 2.25, 0.0, 7.75]) for _ in keys]
+        elif init == "cfarray":      # ... the SAME non-integer pseudo-count for every key, given per key
+            init = [rng.choice([0.5, 2.25, 7.75])] * len(keys)
         batches = [_batch(rng, keys, absent) for _ in range(rng.randint(1, 5))]
         out.append({"keys": keys, "kdtype": dt, "mod": mod, "init": init, "batches": batches, "pseed": rng.randint(0, 999),
                     "idt": rng.choice([None, None, "uint8", "uint16", "uint32", "uint64", "int32", "int16"])})
